@@ -156,12 +156,14 @@ pub fn shape_cover(m: &Model<'static>, exp: Exp, dir: Dir, c: &crate::wowm::Cont
         if frames.len() >= keep {
             break;
         }
-        let knobs = match s % 6 {
+        let knobs = match if s == 2 { 11 } else { s % 6 } {
+            11 => Knobs { big_array_one_in: 2, size_budget: 60_000, avoid_cond_flag_branches: 100, ..Knobs::default() },
             0 => Knobs { avoid_cond_flag_branches: 85, ..Knobs::default() },
             1 => Knobs { max_arr: 0, max_str: 0, avoid_cond_flag_branches: 85, ..Knobs::default() },
             2 => Knobs { max_arr: 6, max_str: 40, size_budget: 6000, avoid_cond_flag_branches: 85, ..Knobs::default() },
             3 => Knobs { take_optional: Some(true), avoid_cond_flag_branches: 85, ..Knobs::default() },
             4 => Knobs { take_optional: Some(false), avoid_cond_flag_branches: 100, ..Knobs::default() },
+            _ if s % 12 == 11 => Knobs { big_array_one_in: 2, size_budget: 60_000, avoid_cond_flag_branches: 100, ..Knobs::default() },
             _ => Knobs { avoid_cond_flag_branches: 30, ..Knobs::default() },
         };
         let Ok(f) = m.encode(c, rng, &knobs) else { continue };
@@ -171,9 +173,13 @@ pub fn shape_cover(m: &Model<'static>, exp: Exp, dir: Dir, c: &crate::wowm::Cont
         if !seen.insert(format!("{}|{}", f.shape, f.plain.len().min(64))) {
             continue;
         }
-        let adds = f.shape.split(',').any(|t| !seen_tokens.contains(t));
+        let big = knobs.big_array_one_in > 0 && f.plain.len() > 255;
+        let adds = f.shape.split(',').any(|t| !seen_tokens.contains(t)) || (big && !seen_tokens.contains("array:255+"));
         if !frames.is_empty() && !adds {
             continue;
+        }
+        if big {
+            seen_tokens.insert("array:255+".to_string());
         }
         for t in f.shape.split(',') {
             seen_tokens.insert(t.to_string());
